@@ -39,10 +39,21 @@ Definition last_is_rbrace (r : string) : bool :=
   match srev r "" with String c _ => Ascii.eqb c "}"%char | _ => false end.
 Definition drop_last (r : string) : string :=
   match srev r "" with String _ x => srev x "" | e => e end.
-Definition seg_of (s : string) : seg :=
+(* a segment with one variable: the text before '{', the name, the text after '}' *)
+Fixpoint until_lbrace (s : string) : option (string * string) :=
   match s with
-  | String c r => if Ascii.eqb c "{"%char && last_is_rbrace r then SVar (drop_last r) else SLit s
-  | _ => SLit s
+  | EmptyString => None
+  | String c r => if Ascii.eqb c "{"%char then Some (EmptyString, r)
+                  else match until_lbrace r with Some (a, b) => Some (String c a, b) | None => None end
+  end.
+Definition seg_of (s : string) : seg :=
+  match until_lbrace s with
+  | None => SLit s
+  | Some (pre, r) =>
+      match until_brace r with
+      | None => SLit s
+      | Some (name, suf) => if String.eqb pre "" && String.eqb suf "" then SVar name else SMix pre name suf
+      end
   end.
 (* "/a/{x}" -> [SLit ""; SLit "a"; SVar "x"] (the leading empty piece included, as for the path) *)
 Definition segs_of (tpl : string) : list seg := map seg_of (split_slash tpl "").
@@ -64,6 +75,7 @@ Fixpoint fill_segs (t : list seg) (m : list (string * string)) : option (list st
   | [] => Some []
   | SLit l :: r => option_map (cons l) (fill_segs r m)
   | SVar n :: r => match assoc n m, fill_segs r m with Some v, Some rest => Some (v :: rest) | _, _ => None end
+  | SMix pre n suf :: r => match assoc n m, fill_segs r m with Some v, Some rest => Some ((pre ++ v ++ suf)%string :: rest) | _, _ => None end
   end.
 Definition sound (k : c09case) (path : string) (kind : N) (tpl : string) (params : list (string * string)) : bool :=
   if negb (N.eqb kind 0) then true else
@@ -117,11 +129,21 @@ Definition judge (k : c09case) : N :=
   let snd_g := sound k (k9_raw k) (g9_gorilla_kind k) (g9_gorilla_template k) (g9_gorilla_params k) in
   let compl_l := negb (fills_some k (k9_path k)) || N.eqb (g9_legacy_kind k) 0 in
   let compl_g := negb (fills_some k (k9_raw k)) || N.eqb (g9_gorilla_kind k) 0 in
-  let no_panic := negb (N.eqb (g9_legacy_kind k) 3) && negb (N.eqb (g9_gorilla_kind k) 3) in
-  let agree := snd_l && snd_g && compl_l && compl_g && no_panic in
-  (* finding classes: 1 legacy matches an empty segment (soundness); 2 gorilla: a path match with a
-     method mismatch ends the search (completeness); 3 legacy panics on an unknown method / nil node *)
-  let gc : N := if negb snd_l then 1%N else if negb compl_g then 2%N else if negb no_panic then 3%N else 0%N in
-  if agree then (if same then J_OK else J_DRIFT)
-  else if same && negb (N.eqb gc 0) && snd_g && compl_l then J_KNOWN gc
+  let no_panic_l := negb (N.eqb (g9_legacy_kind k) 3) in
+  let no_panic_g := negb (N.eqb (g9_gorilla_kind k) 3) in
+  let legacy_ok := snd_l && compl_l && no_panic_l in
+  let gorilla_ok := snd_g && compl_g && no_panic_g in
+  (* finding classes, per router. Legacy: 1 a variable matches an empty segment (soundness); 3 panic
+     on an unknown method / nil node; 5 a variable followed by literal text inside its segment takes
+     the whole segment, so the filled template is not routed (completeness; the package comment says
+     so). Gorilla: 2 a path match with a method mismatch ends the search (completeness). *)
+  let has_suffixed_var := existsb (fun pm => existsb (fun sg => match sg with SMix _ _ suf => negb (String.eqb suf "") | _ => false end)
+                                                     (segs_of (fst pm))) (k9_paths k) in
+  let gl : N := if legacy_ok then 0%N else if negb snd_l then 1%N else if negb no_panic_l then 3%N
+                else if has_suffixed_var then 5%N else 2%N in     (* 2 here: unexplained, see below *)
+  let gg : N := if gorilla_ok then 0%N else if snd_g && no_panic_g then 2%N else 1%N in   (* 1 here: unexplained *)
+  let explained_l := legacy_ok || N.eqb gl 1 || N.eqb gl 3 || N.eqb gl 5 in
+  let explained_g := gorilla_ok || N.eqb gg 2 in
+  if legacy_ok && gorilla_ok then (if same then J_OK else J_DRIFT)
+  else if same && explained_l && explained_g then J_KNOWN (if legacy_ok then gg else gl)
   else J_VIOL.
